@@ -7,6 +7,7 @@ use std::borrow::Borrow;
 use std::hash::Hash;
 use std::path::PathBuf;
 verus! {
+//@include specs/std_extra.rs
 //@include specs/err.rs
 //@include specs/tok.rs
 #[verifier::external_type_specification]
